@@ -86,7 +86,8 @@ def unit_level(chk: core.Check, ext):
                         q.Provided, q.Valid = False, False
                         before = q.value
                         try:
-                            ReadParameter(ParameterEntry(Name=p.Name, sValue=repr(float(v)), Comment=''), q, logger_holder)
+                            with contextlib.redirect_stdout(io.StringIO()):
+                                ReadParameter(ParameterEntry(Name=p.Name, sValue=repr(float(v)), Comment=''), q, logger_holder)
                             res = ('accept', q.value, q.Provided, q.Valid, None)
                         except ValueError as e:
                             res = ('reject', q.value, q.Provided, q.Valid, str(e))
@@ -118,7 +119,8 @@ def unit_level(chk: core.Check, ext):
                         q.Provided, q.Valid = False, False
                         before = q.value
                         try:
-                            ReadParameter(ParameterEntry(Name=p.Name, sValue=str(v), Comment=''), q, logger_holder)
+                            with contextlib.redirect_stdout(io.StringIO()):
+                                ReadParameter(ParameterEntry(Name=p.Name, sValue=str(v), Comment=''), q, logger_holder)
                             res = ('accept', q.value, q.Provided, q.Valid, None)
                         except ValueError as e:
                             res = ('reject', q.value, q.Provided, q.Valid, str(e))
